@@ -122,7 +122,7 @@ def parse_stdout(text):
     return ev
 
 
-def one_run(ctx, rid, task, plan, concrete, n_inst, spawn_mode):
+def one_run(ctx, rid, task, plan, concrete, n_inst, spawn_mode, time_limit=7):
     """run the real binary once; returns the trace record (dict) plus raw material for the replay file"""
     d = ctx.path(f"run-{rid}")
     os.makedirs(d)
@@ -152,7 +152,7 @@ def one_run(ctx, rid, task, plan, concrete, n_inst, spawn_mode):
         path = bindir
     env = {"PATH": path, "STANDIN_LOG": logf, "STANDIN_PLAN": planf, "HOME": d}
     cmd = [V.ANTHEM, "verify", "--equivalence", task["kind"]] + task["flags"] + \
-          ["--no-timing", "-n", str(n_inst), "--time-limit", "7", "--save-problems", save] + \
+          ["--no-timing", "-n", str(n_inst), "--time-limit", str(time_limit), "--save-problems", save] + \
           [os.path.join(task["dir"], fn) for fn in task["files"]]
     try:
         r = subprocess.run(cmd, env=env, stdout=subprocess.PIPE, stderr=subprocess.PIPE, timeout=120)
@@ -321,6 +321,14 @@ def run_C10(ctx):
         for rid, t, p in jobs:
             conc = concretise(rng, p, order[t["k"]], behs)
             futs.append(ex.submit(one_run, ctx, rid, t, p, conc, p["n"], "ok"))
+        # a prover that answers long after the time limit it was given (anthem itself must keep waiting for the result)
+        for k, n in enumerate([2, 3] if ctx.quick() else [1, 2, 3, 4, 8]):
+            t = [x for x in tasks if len(x["shas"]) >= 2][k % 2]
+            names = order[t["k"]]
+            conc = {nm: {"o": "Theorem", "stdout_b64": b64(b"% SZS status Theorem for x\n"), "delay_ms": 30} for nm in names}
+            late = names[-1] if k % 2 == 0 else names[0]
+            conc[late] = {"o": "CounterSatisfiable", "stdout_b64": b64(b"% SZS status CounterSatisfiable for x\n"), "delay_ms": 5200}
+            futs.append(ex.submit(one_run, ctx, f"slow{k}", t, {"exits": [], "slow": late}, conc, n, "ok", 1))
         # faults: the executable is missing / not executable, for both modes
         for k, (mode, n) in enumerate([("missing", 1), ("missing", 3), ("noexec", 1), ("noexec", 2)]):
             t = tasks[k % len(tasks)]
